@@ -32,6 +32,9 @@ pub fn check(tier: Tier) -> Check {
     parts.push(Part::new("C15/cancel", json!({"depth": tier.pick(4, 5), "r": 2, "worker": true}), 0, tier.pick(30, 500)));
     // three established subscriptions: dropping a stream / a response must not disturb the others
     parts.push(Part::new("C15/streams", json!({"depth": tier.pick(5, 6)}), tier.pick(0, 1), tier.pick(30, 400)));
+    // identifier spaces made to collide: the next PACKET identifier equals the SUBSCRIPTION identifier
+    // of an established subscription (a late SUBACK / cancelled subscribe must not touch that one)
+    parts.push(Part::new("C15/streams", json!({"depth": tier.pick(4, 6), "collide": true}), 0, tier.pick(30, 400)));
     Check {
         also_rel: false,
         property: "C15",
@@ -65,6 +68,12 @@ fn streams(name: String, params: Value) -> Scenario {
             return sys.report(ex, &[]);
         }
         let ids: Vec<u32> = sys.m.subs.iter().map(|x| x.sub_id.unwrap()).collect();
+        let collide = params["collide"].as_bool().unwrap_or(false);
+        if collide {
+            // the next packet identifiers are the subscription identifiers of streams 1 and 2
+            sys.w.handle().verif_set_ids(ids[1] as u16, 100);
+            sys.events.push(format!("PresetCounters(packet_id={}, sub_id=100)", ids[1]));
+        }
         let devs = |s: &Sys| sched_deviations(s, false, true);
         let evs = |s: &Sys| {
             let mut e = vec![];
@@ -76,6 +85,19 @@ fn streams(name: String, params: Value) -> Scenario {
             if s.m.subs[2].stream.is_none() && s.m.subs[2].receiver_alive {
                 e.push(Ev::DropRsp(2));
                 e.push(Ev::TakeStream(2));
+            }
+            if collide {
+                // further subscribe / unsubscribe calls of another caller, which may be abandoned
+                if s.m.ops.len() < 5 {
+                    e.push(Ev::Start(OpSpec::Subscribe(SubscribeSpec::simple("s/new"))));
+                    e.push(Ev::Start(OpSpec::Unsubscribe(UnsubscribeSpec::simple("s/0"))));
+                }
+                for i in 3..s.m.ops.len() {
+                    let o = &s.m.ops[i];
+                    if o.alive && o.st != St::Done && !matches!(o.spec, OpSpec::Publish(_)) {
+                        e.push(Ev::Cancel(i));
+                    }
+                }
             }
             let t = s.transitions;
             for id in &ids {
